@@ -210,7 +210,9 @@ fn mutate(c: &mut Case<'_>, b: &Base) -> (String, String) {
             ("truncate".into(), b.doc[..end].to_owned())
         }
         5 => {
-            let tail = *c.t.pick(&["x", "<a/>", "<!-- c -->x", " \n trailing", "<Extra>1</Extra>", "]]>", "&amp;"]);
+            let tail = *c.t.pick(&["x", "<a/>", "<!-- c -->x", " \n trailing", "<Extra>1</Extra>", "]]>", "&amp;", "\n<Extra/>", "\n</Root>", " \n<!--c-->trailing", "\n<!--c-->\n<a></a>", "\t\n &#32;"]);
+            // ... or white space followed by a second copy of the document
+            let tail = if c.t.chance(32) { format!("\n{}", b.doc) } else { tail.to_owned() };
             ("append-after-root".into(), format!("{}{}", b.doc, tail))
         }
         6 => {
@@ -397,6 +399,7 @@ pub fn run(r: &mut Runner) {
     r.probe("regress:form-feed-before-root", |c| probe_doc(c, "Tagging", "\u{c}<Tagging><TagSet></TagSet></Tagging>", "accepts-malformed:text-before-root"));
     r.probe("regress:char-ref-to-non-char", |c| probe_doc(c, "Tagging", "<Tagging><TagSet><Tag><Key>a&#x4;b</Key><Value>v</Value></Tag></TagSet></Tagging>", "accepts-malformed:character-reference-to-a-non-XML-character"));
     r.probe("regress:literal-line-ends", |c| probe_doc(c, "Tagging", "<Tagging><TagSet><Tag><Key>a\r\nb\rc</Key><Value>v&#xD;</Value></Tag></TagSet></Tagging>", "retraction:line-ends"));
+    r.probe("regress:junk-after-white-space-after-root", |c| probe_doc(c, "Tagging", "<Tagging><TagSet></TagSet></Tagging>\n</Tagging>", "trailing-text-accepted"));
     r.probe("regress:unknown-entity-in-skipped-text", |c| probe_doc(c, "Tagging", "<Tagging>&Lt;<TagSet></TagSet></Tagging>", "accepts-malformed:unterminated-entity"));
     let n_types = codecs().len() as u64;
     r.note(format!("{n_types} XML codec types read from the tree"));
